@@ -170,7 +170,7 @@ Definition write_poly_topo (entity : Z) (items : list (list Z)) (henc : Z) : lis
     let vals := map (fun x => len x) items in
     let mn := list_min vals 4294967295 in
     let mx := list_max vals 0 in
-    let fixed := (mn =? mx) && (mn <=? 255) in
+    let fixed := (mn =? mx) && negb (mn =? 0) && (mn <=? 255) in
     let valence := if fixed then mn else 0 in
     let venc := if fixed then IntEncoding_None else suitable_int_encoding mx in
     write_chunk ChunkType_Topo
@@ -252,8 +252,7 @@ Definition in_range (lim : Z) (h : Z) : bool := (0 <=? h) && (h <? lim).
 
 (* what the writer can express and the reader accepts for a mesh object of dimension `dim`:
    counts below 2^30 (every half-entity handle is a valid int), every stored handle in range, one position per vertex,
-   no face of valence 0 (outside the kernel's contract: the writer's face_halfedges circulator reads halfedges()[0]) and
-   not "every cell has valence 0" (that is written as fixed valence 0 / encoding None, see Props/Properties_C06.v),
+   no face of valence 0 (outside the kernel's contract: the writer's face_halfedges circulator reads halfedges()[0]),
    valences below 2^32, properties with a registered type, distinct (entity, name, type), one value per entity *)
 Definition wf_fileb (dim : Z) (m : meshfile) : bool :=
   (0 <=? m_nv m) && (m_nv m <? 1073741824) && (len (m_edges m) <? 1073741824) &&
@@ -264,7 +263,6 @@ Definition wf_fileb (dim : Z) (m : meshfile) : bool :=
   forallb (fun f => forallb (in_range (2 * len (m_edges m))) f && (len f <? two32)) (m_faces m) &&
   forallb (fun c => forallb (in_range (2 * len (m_faces m))) c && (len c <? two32)) (m_cells m) &&
   forallb (fun f => negb (len f =? 0)) (m_faces m) &&
-  (match m_cells m with [] => true | _ => negb (forallb (fun c => len c =? 0) (m_cells m)) end) &&
   forallb (prop_okb m) (m_props m) && nodup_props (m_props m).
 
 Definition wf_file (dim : Z) (m : meshfile) : Prop := wf_fileb dim m = true.
